@@ -199,6 +199,17 @@ func (n *nodeContext) validateValue(state vertexStatus) {
 			if bound == nil {
 				continue
 			}
+			if v == Value(n.node) {
+				// The node was marked as a struct above because it has
+				// fields that are not optional, so the bound conflicts
+				// with it. Validating the bound against the node itself
+				// would finalize the node again from within its own
+				// evaluation and recurse until the stack overflows.
+				n.addErr(ctx.Newf(
+					"conflicting values %s and %s (mismatched types %s and %s)",
+					v, bound, StructKind, bound.Kind()))
+				continue
+			}
 			c := MakeRootConjunct(nil, bound)
 			if b := ctx.Validate(c, v); b != nil {
 				// TODO(errors): make Validate return boolean and generate
